@@ -18,8 +18,8 @@ import (
 	codectypes "github.com/cosmos/cosmos-sdk/codec/types"
 	sdk "github.com/cosmos/cosmos-sdk/types"
 	"github.com/cosmos/cosmos-sdk/x/authz"
-	"github.com/cosmos/cosmos-sdk/x/group"
 	banktypes "github.com/cosmos/cosmos-sdk/x/bank/types"
+	"github.com/cosmos/cosmos-sdk/x/group"
 
 	"verifharness/simnet"
 )
@@ -44,6 +44,9 @@ type TxStep struct {
 	FeePayer   string              `json:"fee_payer,omitempty"`
 	Gas        uint64              `json:"gas,omitempty"`
 	Memo       string              `json:"memo,omitempty"`
+	// FeeGranter (an account index + 1) names a fee granter; the harness never creates fee
+	// allowances, so on a correct chain such a transaction is refused and nothing moves.
+	FeeGranter int `json:"fee_granter,omitempty"`
 	// TipFrom / TipAmount set the transaction's optional AuthInfo.tip (an account index + 1 and
 	// coins): legal in this SDK version, ignored by a chain without a tip post-handler.
 	TipFrom   int    `json:"tip_from,omitempty"`
@@ -105,8 +108,11 @@ type Options struct {
 	// DidGenesis, when set, is installed as the did section of the genesis; the DID model is
 	// derived from it (entries are keyed by the genesis map key, whatever the document says).
 	DidGenesis json.RawMessage
-	// TwinNode: node-local start-up options of the twin instance (the primary runs on defaults).
+	// TwinNode: node-local start-up options of the twin instance (the primary runs on defaults
+	// unless Node is set).
 	TwinNode map[string]interface{}
+	// Node: node-local start-up options of the primary instance.
+	Node map[string]interface{}
 	// PnftGenesis, when set, is installed as the pnft section of the genesis; the PNFT model
 	// is derived from it (owner strings as spelled in the file, valid addresses or not).
 	PnftGenesis json.RawMessage
@@ -203,6 +209,12 @@ func New(opt Options) (*World, error) {
 		db = d
 	}
 	g := simnet.GenesisOptions{Accounts: accts, Previous: opt.Previous}
+	if len(opt.Node) > 0 {
+		g.Node = simnet.NodeOpts{}
+		for k, v := range opt.Node {
+			g.Node[k] = v
+		}
+	}
 	if opt.Mutate != nil || opt.AolGenesis != nil || opt.DidGenesis != nil || opt.PnftGenesis != nil {
 		g.Mutate = func(_ func(interface{}) []byte, gs map[string]json.RawMessage) {
 			if opt.AolGenesis != nil {
@@ -484,7 +496,12 @@ func (w *World) applyTx(ts *TxStep) error {
 		tipFrom = w.Accts[ts.TipFrom-1].Bech
 		w.Label("tx with a tip field")
 	}
-	raw, err := w.C.BuildTx(simnet.TxSpec{Msgs: obs.Outer, SignedMsgs: signedOuter, Signers: ts.Signers, Fee: parseCoins(ts.Fee), TipFrom: tipFrom, TipAmount: parseCoins(ts.TipAmount),
+	feeGranter := ""
+	if ts.FeeGranter > 0 && ts.FeeGranter <= NumAccounts {
+		feeGranter = w.Accts[ts.FeeGranter-1].Bech
+		w.Label("tx naming a fee granter (no allowance exists)")
+	}
+	raw, err := w.C.BuildTx(simnet.TxSpec{Msgs: obs.Outer, SignedMsgs: signedOuter, Signers: ts.Signers, Fee: parseCoins(ts.Fee), FeeGranter: feeGranter, TipFrom: tipFrom, TipAmount: parseCoins(ts.TipAmount),
 		FeePayer: ts.FeePayer, Gas: ts.Gas, Memo: ts.Memo})
 	if err != nil {
 		// The client-side tx builder refused (e.g. GetSigners panics on a malformed address):
@@ -948,6 +965,9 @@ func (w *World) WriteReplay(path string, extra map[string]interface{}) error {
 	}
 	if len(w.Opt.TwinNode) > 0 {
 		doc["twin_node_options"] = w.Opt.TwinNode
+	}
+	if len(w.Opt.Node) > 0 {
+		doc["node_options"] = w.Opt.Node
 	}
 	for k, v := range extra {
 		doc[k] = v
